@@ -12,6 +12,7 @@ mod lsp;
 mod lspcheck;
 mod query;
 mod rng;
+mod sysseam;
 
 use serde_json::{json, Value};
 use std::collections::{BTreeMap, BTreeSet};
@@ -242,6 +243,12 @@ fn lsp_eval(s: &lsp::Session, h: &lsp::History) -> LspEval {
             counters.insert("edits_applied".to_string(), st.edits_applied);
             counters.insert("syntax_tree_crosschecks".to_string(), st.syntax_tree_crosschecks);
             counters.insert("systematic_sweep_edits".to_string(), st.sweep_edits);
+            counters.insert("skipped_server_negotiated_other_encoding".to_string(), st.negotiated_other_encoding);
+            for p in s.ops.iter().take(1) {
+                for t in p.tags.iter().filter(|t| t.starts_with("client.offers_encodings")) {
+                    counters.insert(t.clone(), 1);
+                }
+            }
             LspEval { violation, nontrivial: st.nontrivial, kind_key: st.kind_key, counters }
         }
         "C15" => {
@@ -511,7 +518,7 @@ fn lsp_shrink(args: &[String]) -> i32 {
                 while i > 4 && t0.elapsed() < budget && !poisoned {
                     let lo = i.saturating_sub(chunk).max(4);
                     let mut cand = best.clone();
-                    cand.ops.drain(lo..i);
+                    cand.drain_ops(lo, i);
                     if let Some(d) = fails(&cand, &mut tries, &mut poisoned) {
                         cand.decisions = Some(d);
                         best = cand;
@@ -587,11 +594,25 @@ fn lsp_shrink(args: &[String]) -> i32 {
                     }
                 }
             }
+            if !best.midload_at.is_empty() {
+                for k in (0..best.midload_at.len()).rev() {
+                    let mut cand = best.clone();
+                    cand.midload_at.remove(k);
+                    if cand.midload_at.is_empty() && cand.midload.is_empty() {
+                        cand.decisions = None;
+                    }
+                    if let Some(d) = fails(&cand, &mut tries, &mut poisoned) {
+                        cand.decisions = Some(d);
+                        best = cand;
+                        progress = true;
+                    }
+                }
+            }
             if !best.midload.is_empty() {
                 for k in (0..best.midload.len()).rev() {
                     let mut cand = best.clone();
                     cand.midload.remove(k);
-                    if cand.midload.is_empty() {
+                    if cand.midload.is_empty() && cand.midload_at.is_empty() {
                         // the loader's points stop being decision points: recorded decisions are stale
                         cand.decisions = None;
                     }
